@@ -472,6 +472,10 @@ def gen_append(seed, tier):
                     v = pool[(rep * 7 + i * 3 + len(rec)) % len(pool)] if rep % 2 == 0 else r.choice(pool)
                     if kind == 'text' and namelen is not None:
                         v = rand_text(r, namelen if i % 3 else max(0, namelen - i), ASCII).encode()
+                    if kind == 'text' and pgn != 129540 and rep % 13 == 5:
+                        # mostly-ASCII names with one accented character are stored as UCS-2 (two bytes per character): longer than the setter's
+                        # estimate, so that near the payload limit the append has to take back what it wrote
+                        v = ('\u00e4' + rand_text(r, r.choice([13, 15, 17]) + (i % 3), ASCII)).encode('utf-8')
                     rec.append(tok({'kind': kind}, v))
                 recs += rec
             nidx = min(n, 21) + 2 if rp != '-' else 0
@@ -613,12 +617,21 @@ def oracle_append(t, res):
     for i, (a, rec) in enumerate(zip(acc, recs)):
         name = rec[1]
         size = 12 + (min(len(name), 30) if pgn == 129285 else max(1, len(name)))
+        fit = 12 + len(name)
+        if pgn == 129285 and any(c >= 0x80 for c in name):
+            # (129285 stores names with unicode support; 130074 stores the bytes as they are) a name with a non-ASCII character is stored as UCS-2: two bytes per character (characters beyond the limit of 30 cut)
+            try:
+                nch = len(bytes(name).decode('utf-8'))
+            except UnicodeDecodeError:
+                nch = len(name)
+            size = 12 + 2 * (min(nch, 30) if pgn == 129285 else max(1, nch))
+            fit = max(fit, size)          # the setter decides by its estimate (UTF-8 length) and then by what the text really took
         if a == '1+':
             if cur + size > 223:
                 return '%s.append-beyond-payload:%s accepted record %d of %d bytes with %d bytes used' % (key, aname, i, size, cur)
             kept.append(rec)
             cur += size
-        elif cur + 12 + len(name) + 2 <= 223:
+        elif cur + fit + 2 <= 223:
             return '%s.append-refused:%s refused record %d (%d byte name) with %d of 223 bytes used' % (key, aname, i, len(name), cur)
     if items != len(kept):
         return '%s.count:header reports %d items after %d accepted appends' % (key, items, len(kept))
